@@ -183,7 +183,8 @@ Qed.
 (* ------------------------------------------------------------------ frame: which tables a function leaves alone *)
 Lemma pop_keys_frame : forall ks s, reqs (pop_keys s ks) = reqs s /\ exchanges (pop_keys s ks) = exchanges s /\
   backlogs (pop_keys s ks) = backlogs s /\ tmst (pop_keys s ks) = tmst s /\ next_mid (pop_keys s ks) = next_mid s /\
-  now (pop_keys s ks) = now s /\ seq (pop_keys s ks) = seq s /\ ack_timeout (pop_keys s ks) = ack_timeout s.
+  now (pop_keys s ks) = now s /\ seq (pop_keys s ks) = seq s /\ ack_timeout (pop_keys s ks) = ack_timeout s /\
+  refusing (pop_keys s ks) = refusing s.
 Proof.
   induction ks as [|k r IH]; intros s; cbn [pop_keys]; [repeat split|].
   specialize (IH (pop_outgoing s k)). unfold pop_outgoing in *. destruct (outgoing s); exact IH.
@@ -211,72 +212,103 @@ Qed.
 
 Lemma add_event_frame : forall s q ev s' o, _add_event s q ev = (s', o) ->
   exchanges s' = exchanges s /\ backlogs s' = backlogs s /\ tmst s' = tmst s /\ next_mid s' = next_mid s /\
-  now s' = now s /\ seq s' = seq s /\ ack_timeout s' = ack_timeout s.
+  now s' = now s /\ seq s' = seq s /\ ack_timeout s' = ack_timeout s /\ refusing s' = refusing s.
 Proof.
   intros s q ev s' o H. unfold _add_event in H. destruct (get_req s q); [|invpairs; repeat split].
   destruct (pipe_add_event q c ev) as [[c' o'] ks]. invpairs.
-  destruct (pop_keys_frame ks (upd_req s q c')) as (_ & H2 & H3 & H4 & H5 & H6 & H7 & H8).
-  rewrite H2, H3, H4, H5, H6, H7, H8. repeat split.
+  destruct (pop_keys_frame ks (upd_req s q c')) as (_ & H2 & H3 & H4 & H5 & H6 & H7 & H8 & H9).
+  rewrite H2, H3, H4, H5, H6, H7, H8, H9. repeat split.
 Qed.
 
 (* ------------------------------------------------------------------ message layer: frame and output shape *)
-Definition ml_out (o : output) : Prop := match o with Send _ _ _ _ _ _ | Crash _ => True | _ => False end.
+Definition ml_out (o : output) : Prop := match o with Send _ _ _ _ _ _ | Crash _ | Raised _ => True | _ => False end.
+Definition no_deliv (o : list output) : Prop := Forall (fun x => is_delivery x = false) o.
 
-Lemma add_exchange_frame : forall s r w m,
-  outgoing (_add_exchange s r w m) = outgoing s /\ reqs (_add_exchange s r w m) = reqs s /\ tmst (_add_exchange s r w m) = tmst s.
-Proof.
-  intros. unfold _add_exchange. destruct (amem Z.eqb r (backlogs s)); cbn; destruct (exchanges s); cbn; repeat split.
-Qed.
-Lemma send_initially_frame : forall s r w m s' o, _send_initially s r w m = (s', o) ->
-  outgoing s' = outgoing s /\ reqs s' = reqs s /\ tmst s' = tmst s /\ o = [wire_send r w].
-Proof.
-  intros s r w m s' o H. unfold _send_initially in H. invpairs.
-  destruct (w_mtype w =? CON); [destruct m|]; try (repeat split; fail).
-  destruct (add_exchange_frame s r w z) as (H1 & H2 & H3). rewrite H1, H2, H3. repeat split.
-Qed.
-Lemma continue_loop_frame : forall r bl s s' o, _continue_backlog_loop s r bl = (s', o) ->
-  outgoing s' = outgoing s /\ reqs s' = reqs s /\ tmst s' = tmst s /\ Forall ml_out o.
-Proof.
-  intros r. induction bl as [|[w m] rest IH]; intros s s' o H; cbn [_continue_backlog_loop] in H.
-  - destruct (exchanges s); [destruct (has_exchange r l)|]; invpairs; repeat split; constructor.
-  - destruct (exchanges s); [|invpairs; repeat split; constructor].
-    destruct (has_exchange r l); [invpairs; repeat split; constructor|].
-    destruct (_send_initially _ r w (Some m)) as [s1 o1] eqn:S. apply send_initially_frame in S.
-    destruct S as (S1 & S2 & S3 & S4). cbn in S1, S2, S3.
-    destruct (_continue_backlog_loop s1 r rest) as [s2 o2] eqn:L. apply IH in L. destruct L as (L1 & L2 & L3 & L4).
-    invpairs. rewrite L1, L2, L3, S1, S2, S3. repeat split.
-    apply Forall_app. split; [repeat constructor|exact L4].
-Qed.
-Lemma continue_backlog_frame : forall s r s' o, _continue_backlog s r = (s', o) ->
-  outgoing s' = outgoing s /\ reqs s' = reqs s /\ tmst s' = tmst s /\ Forall ml_out o.
-Proof.
-  intros s r s' o H. unfold _continue_backlog in H. destruct (alookup Z.eqb r (backlogs s)).
-  - eapply continue_loop_frame; eauto.
-  - invpairs. repeat split. repeat constructor.
-Qed.
-Lemma ml_out_no_delivery : forall o, Forall ml_out o -> Forall (fun x => is_delivery x = false) o.
+Lemma ml_out_no_delivery : forall o, Forall ml_out o -> no_deliv o.
 Proof. intros o H. eapply Forall_impl; [|exact H]. intros []; cbn; intros; try reflexivity; contradiction. Qed.
 
-(* an incoming ACK never touches the request table *)
-Lemma remove_exchange_ack : forall s r w s' o, w_mtype w <> RST -> _remove_exchange s r w = (s', o) ->
-  outgoing s' = outgoing s /\ reqs s' = reqs s /\ tmst s' = tmst s /\ Forall ml_out o.
+(* the error fan-out only ever produces exceptions *)
+Lemma run_stoppers_no_delivery : forall e qs s s' o, run_stoppers s qs e = (s', o) -> no_deliv o.
 Proof.
-  intros s r w s' o Hm H. unfold _remove_exchange in H.
-  destruct (exchanges s); [|invpairs; repeat split; constructor].
-  destruct (alookup rm_eqb (r, w_mid w) l); [|invpairs; repeat split; constructor].
-  replace (w_mtype w =? RST) with false in H by (symmetry; apply Z.eqb_neq; exact Hm).
-  destruct (_continue_backlog _ r) as [s3 o3] eqn:C. apply continue_backlog_frame in C. invpairs. exact C.
+  intros e. induction qs as [|q rest IH]; intros s s' o H; cbn [run_stoppers] in H; [invpairs; constructor|].
+  destruct (add_exception s q e) as [s1 o1] eqn:A. apply add_exception_no_delivery in A.
+  destruct (run_stoppers s1 rest e) as [s2 o2] eqn:R. apply IH in R. invpairs. apply Forall_app; split; assumption.
 Qed.
-Lemma remove_exchange_no_delivery : forall s r w s' o, _remove_exchange s r w = (s', o) -> Forall (fun x => is_delivery x = false) o.
+Lemma mm_dispatch_error_no_delivery : forall s k r s' o, mm_dispatch_error s k r = (s', o) -> no_deliv o.
 Proof.
-  intros s r w s' o H. unfold _remove_exchange in H.
+  intros s k r s' o H. unfold mm_dispatch_error, tm_dispatch_error in H. destruct (exchanges s); [|invpairs; constructor].
+  destruct (outgoing s); [|invpairs; constructor].
+  destruct (run_stoppers s _ (wrap_error k)) as [s1 o1] eqn:R. apply run_stoppers_no_delivery in R. invpairs. exact R.
+Qed.
+Lemma send_via_transport_no_delivery : forall s r w s' o, _send_via_transport s r w = (s', o) -> no_deliv o.
+Proof.
+  intros s r w s' o H. unfold _send_via_transport in H. destruct (refuses s r); [eapply mm_dispatch_error_no_delivery; eauto|].
+  invpairs. repeat constructor.
+Qed.
+Lemma send_initially_no_delivery : forall s r w m s' o, _send_initially s r w m = (s', o) -> no_deliv o.
+Proof. intros s r w m s' o H. unfold _send_initially in H. eapply send_via_transport_no_delivery; eauto. Qed.
+Lemma continue_loop_no_delivery : forall r fuel s s' o x, _continue_backlog_loop fuel s r = (s', o, x) -> no_deliv o.
+Proof.
+  intros r. induction fuel as [|f IH]; intros s s' o x H; cbn [_continue_backlog_loop] in H; [invpairs; constructor|].
+  destruct (exchanges s); [|invpairs; constructor]. destruct (has_exchange r l); [invpairs; constructor|].
+  destruct (alookup Z.eqb r (backlogs s)) as [[|[w m] rest]|]; try (invpairs; repeat constructor).
+  destruct (_send_initially _ r w (Some m)) as [s1 o1] eqn:S. apply send_initially_no_delivery in S.
+  destruct (_continue_backlog_loop f s1 r) as [[s2 o2] x2] eqn:L. apply IH in L. invpairs. apply Forall_app; split; assumption.
+Qed.
+Lemma remove_exchange_no_delivery : forall s r w s' o x, _remove_exchange s r w = (s', o, x) -> no_deliv o.
+Proof.
+  intros s r w s' o x H. unfold _remove_exchange in H.
   destruct (exchanges s); [|invpairs; constructor].
   destruct (alookup rm_eqb (r, w_mid w) l); [|invpairs; constructor].
   destruct (if w_mtype w =? RST then _ else _) as [s2 o2] eqn:A.
-  destruct (_continue_backlog s2 r) as [s3 o3] eqn:C. apply continue_backlog_frame in C. invpairs.
+  destruct (_continue_backlog s2 r) as [[s3 o3] x3] eqn:C. invpairs.
   apply Forall_app. split.
   - destruct (w_mtype w =? RST); [eapply add_exception_no_delivery; eauto|invpairs; constructor].
-  - apply ml_out_no_delivery. apply C.
+  - unfold _continue_backlog in C. destruct (alookup Z.eqb r (backlogs s2)); [eapply continue_loop_no_delivery; eauto|invpairs; repeat constructor].
+Qed.
+
+(* as long as the transport accepts datagrams for r, sending is just an output *)
+Lemma add_exchange_frame : forall s r w m,
+  outgoing (_add_exchange s r w m) = outgoing s /\ reqs (_add_exchange s r w m) = reqs s /\ tmst (_add_exchange s r w m) = tmst s /\
+  refusing (_add_exchange s r w m) = refusing s.
+Proof.
+  intros. unfold _add_exchange. destruct (amem Z.eqb r (backlogs s)); cbn; destruct (exchanges s); cbn; repeat split.
+Qed.
+Lemma send_initially_frame : forall s r w m s' o, refuses s r = false -> _send_initially s r w m = (s', o) ->
+  outgoing s' = outgoing s /\ reqs s' = reqs s /\ tmst s' = tmst s /\ refusing s' = refusing s /\ o = [wire_send r w].
+Proof.
+  intros s r w m s' o Hr H. unfold _send_initially, _send_via_transport in H.
+  set (s1 := if w_mtype w =? CON then _ else s) in H.
+  assert (F : outgoing s1 = outgoing s /\ reqs s1 = reqs s /\ tmst s1 = tmst s /\ refusing s1 = refusing s).
+  { subst s1. destruct (w_mtype w =? CON); [destruct m|]; try (repeat split; fail). apply add_exchange_frame. }
+  clearbody s1. destruct F as (F1 & F2 & F3 & F4).
+  assert (Hr1 : refuses s1 r = false) by (unfold refuses in *; rewrite F4; exact Hr). rewrite Hr1 in H. invpairs. repeat split; assumption.
+Qed.
+Lemma continue_loop_frame : forall r fuel s s' o x, refuses s r = false -> _continue_backlog_loop fuel s r = (s', o, x) ->
+  outgoing s' = outgoing s /\ reqs s' = reqs s /\ tmst s' = tmst s /\ refusing s' = refusing s /\ Forall ml_out o.
+Proof.
+  intros r. induction fuel as [|f IH]; intros s s' o x Hr H; cbn [_continue_backlog_loop] in H; [invpairs; repeat split; constructor|].
+  destruct (exchanges s); [|invpairs; repeat split; constructor]. destruct (has_exchange r l); [invpairs; repeat split; constructor|].
+  destruct (alookup Z.eqb r (backlogs s)) as [[|[w m] rest]|]; try (invpairs; repeat split; repeat constructor).
+  destruct (_send_initially _ r w (Some m)) as [s1 o1] eqn:S. apply send_initially_frame in S; [|exact Hr].
+  destruct S as (S1 & S2 & S3 & S4 & S5). cbn in S1, S2, S3, S4.
+  destruct (_continue_backlog_loop f s1 r) as [[s2 o2] x2] eqn:L. apply IH in L; [|unfold refuses in *; rewrite S4; exact Hr].
+  destruct L as (L1 & L2 & L3 & L4 & L5).
+  invpairs. rewrite L1, L2, L3, L4, S1, S2, S3, S4. repeat split.
+  apply Forall_app. split; [repeat constructor|exact L5].
+Qed.
+(* an incoming ACK never touches the request table (while the transport accepts datagrams for r) *)
+Lemma remove_exchange_ack : forall s r w s' o x, refuses s r = false -> w_mtype w <> RST -> _remove_exchange s r w = (s', o, x) ->
+  outgoing s' = outgoing s /\ reqs s' = reqs s /\ tmst s' = tmst s /\ refusing s' = refusing s /\ Forall ml_out o.
+Proof.
+  intros s r w s' o x Hr Hm H. unfold _remove_exchange in H.
+  destruct (exchanges s); [|invpairs; repeat split; constructor].
+  destruct (alookup rm_eqb (r, w_mid w) l); [|invpairs; repeat split; constructor].
+  replace (w_mtype w =? RST) with false in H by (symmetry; apply Z.eqb_neq; exact Hm).
+  destruct (_continue_backlog _ r) as [[s3 o3] x3] eqn:C. invpairs.
+  unfold _continue_backlog in C. cbn [backlogs set_exchanges] in C.
+  destruct (alookup Z.eqb r (backlogs s)); [|invpairs; repeat split; repeat constructor].
+  apply continue_loop_frame in C; [exact C|exact Hr].
 Qed.
 
 (* ------------------------------------------------------------------ matching *)
@@ -308,36 +340,40 @@ Proof.
 Qed.
 
 Lemma deliver_only_matching_lemma : forall s r mcl w s' outs o,
+  (w_mtype w = ACK -> refuses s r = false) ->
   dispatch_message s r mcl w = (s', outs) -> In o outs -> is_delivery o = true ->
   exists og q, outgoing s = Some og /\ matching og (w_token w) r = Some q /\
     (o = SetResult q (w_rid w) (w_token w) r \/ o = Notify q (w_rid w) (w_token w) r) /\
     is_response (w_code w) = true /\ w_mtype w <> RST.
 Proof.
-  intros s r mcl w s' outs o H Hin Hd. unfold dispatch_message in H.
+  intros s r mcl w s' outs o Hack H Hin Hd. unfold dispatch_message in H.
   destruct (is_request (w_code w)).
   { invpairs. destruct Hin as [<-|[]]. discriminate. }
-  destruct (if (w_mtype w =? ACK) || (w_mtype w =? RST) then _ else _) as [s1 o1] eqn:RE.
-  assert (ND1 : Forall (fun x => is_delivery x = false) o1).
+  destruct (if (w_mtype w =? ACK) || (w_mtype w =? RST) then _ else _) as [[s1 o1] x1] eqn:RE.
+  assert (ND1 : no_deliv o1).
   { destruct ((w_mtype w =? ACK) || (w_mtype w =? RST)); [eapply remove_exchange_no_delivery; eauto|invpairs; constructor]. }
-  assert (notin1 : ~ In o o1).
-  { intros Hi. rewrite Forall_forall in ND1. apply ND1 in Hi. congruence. }
+  assert (notin : forall l, no_deliv l -> ~ In o l).
+  { intros l Hl Hi. unfold no_deliv in Hl. rewrite Forall_forall in Hl. apply Hl in Hi. congruence. }
+  assert (SI : forall s r w s' o, _send_initially s r w None = (s', o) -> no_deliv o).
+  { intros *. apply send_initially_no_delivery. }
+  destruct x1. { invpairs. exfalso. eapply notin; eauto. }
   destruct ((w_code w =? EMPTY) && (w_mtype w =? CON)).
-  { destruct (_send_initially s1 r _ None) as [s2 o2] eqn:S. apply send_initially_frame in S. destruct S as (_ & _ & _ & ->).
-    invpairs. apply in_app_or in Hin. destruct Hin as [Hi|[<-|[]]]; [contradiction|discriminate]. }
+  { destruct (_send_initially s1 r _ None) as [s2 o2] eqn:S. apply SI in S.
+    invpairs. apply in_app_or in Hin. destruct Hin as [Hi|Hi]; exfalso; eapply notin; eauto. }
   destruct ((w_code w =? EMPTY) && ((w_mtype w =? ACK) || (w_mtype w =? RST))).
-  { invpairs. contradiction. }
+  { invpairs. exfalso. eapply notin; eauto. }
   destruct (is_response (w_code w) && ((w_mtype w =? CON) || (w_mtype w =? NON) || (w_mtype w =? ACK))) eqn:Cond.
-  2: { invpairs. contradiction. }
+  2: { invpairs. exfalso. eapply notin; eauto. }
   apply andb_prop in Cond. destruct Cond as [Cresp Ctype].
   assert (Hrst : w_mtype w <> RST). { unfold CON, NON, ACK, RST in *. lia. }
   assert (Hog1 : outgoing s1 = outgoing s).
-  { destruct ((w_mtype w =? ACK) || (w_mtype w =? RST)); [|invpairs; reflexivity].
-    eapply remove_exchange_ack in RE; [apply RE|exact Hrst]. }
+  { destruct ((w_mtype w =? ACK) || (w_mtype w =? RST)) eqn:T; [|invpairs; reflexivity].
+    eapply remove_exchange_ack in RE; [apply RE| |exact Hrst]. apply Hack. unfold ACK, RST in *. lia. }
   destruct (outgoing s) as [og|] eqn:Hog.
   2: { unfold process_response in H. rewrite Hog1 in H.
-       destruct (_send_initially s1 r _ None) as [s3 o3] eqn:S. apply send_initially_frame in S. destruct S as (_ & _ & _ & ->).
+       destruct (_send_initially s1 r _ None) as [s3 o3] eqn:S. apply SI in S.
        destruct ((w_mtype w =? CON) && negb mcl); invpairs;
-         repeat (apply in_app_or in Hin; destruct Hin as [Hin|Hin]); try contradiction;
+         repeat (apply in_app_or in Hin; destruct Hin as [Hin|Hin]); try (exfalso; eapply notin; eauto; fail);
          repeat (destruct Hin as [<-|Hin]; try discriminate); try contradiction. }
   pose proof (process_response_spec s1 r w og Hog1) as PS.
   destruct (matching og (w_token w) r) as [q|] eqn:M.
@@ -346,19 +382,19 @@ Proof.
     apply add_event_out_ok in A.
     assert (Hin2 : In o o2).
     { destruct (w_mtype w =? CON).
-      - destruct (_send_initially s2 r _ None) as [s3 o3] eqn:S. apply send_initially_frame in S. destruct S as (_ & _ & _ & ->).
-        invpairs. apply in_app_or in Hin. destruct Hin as [Hi|Hi]; [contradiction|].
-        apply in_app_or in Hi. destruct Hi as [Hi|[<-|[]]]; [exact Hi|discriminate].
-      - invpairs. apply in_app_or in Hin. destruct Hin as [Hi|Hi]; [contradiction|exact Hi]. }
+      - destruct (_send_initially s2 r _ None) as [s3 o3] eqn:S. apply SI in S.
+        invpairs. apply in_app_or in Hin. destruct Hin as [Hi|Hi]; [exfalso; eapply notin; eauto|].
+        apply in_app_or in Hi. destruct Hi as [Hi|Hi]; [exact Hi|exfalso; eapply notin; eauto].
+      - invpairs. apply in_app_or in Hin. destruct Hin as [Hi|Hi]; [exfalso; eapply notin; eauto|exact Hi]. }
     rewrite Forall_forall in A. apply A in Hin2.
     exists og, q. split; [reflexivity|]. split; [exact M|]. split; [|split; [exact Cresp|exact Hrst]].
     destruct o; cbn in Hd; try discriminate; cbn in Hin2.
     + destruct Hin2 as [-> (w0 & l & E & -> & ->)]. inversion E. subst. left. reflexivity.
     + destruct Hin2 as [-> (w0 & l & E & -> & ->)]. inversion E. subst. right. reflexivity.
   - rewrite PS in H.
-    destruct (_send_initially s1 r _ None) as [s3 o3] eqn:S. apply send_initially_frame in S. destruct S as (_ & _ & _ & ->).
+    destruct (_send_initially s1 r _ None) as [s3 o3] eqn:S. apply SI in S.
     destruct ((w_mtype w =? CON) && negb mcl); invpairs;
-      repeat (apply in_app_or in Hin; destruct Hin as [Hin|Hin]); try contradiction;
+      repeat (apply in_app_or in Hin; destruct Hin as [Hin|Hin]); try (exfalso; eapply notin; eauto; fail);
       repeat (destruct Hin as [<-|Hin]; try discriminate); try contradiction.
 Qed.
 
@@ -372,12 +408,21 @@ Ltac dm_head Hcon Hresp :=
     rewrite Hreq, Hcon, Hresp, Hne; cbn [CON ACK RST NON Z.eqb Pos.eqb orb andb]
   end.
 
-Lemma unmatched_con_rst_lemma : forall s r mcl w og, outgoing s = Some og ->
+(* general form: the Reset is handed to the transport (which may refuse it, see _send_via_transport) *)
+Lemma unmatched_con_rst_general : forall s r mcl w og, outgoing s = Some og ->
+  is_response (w_code w) = true -> w_mtype w = CON -> matching og (w_token w) r = None ->
+  dispatch_message s r mcl w = if mcl then (s, []) else _send_via_transport s r (empty_msg RST (w_mid w)).
+Proof.
+  intros s r mcl w og Hog Hresp Hcon M. dm_head Hcon Hresp.
+  rewrite (process_response_spec s r w og Hog), M. destruct mcl; cbn [negb]; [reflexivity|].
+  unfold _send_initially. cbn. destruct (_send_via_transport s r _). reflexivity.
+Qed.
+Lemma unmatched_con_rst_lemma : forall s r mcl w og, outgoing s = Some og -> refuses s r = false ->
   is_response (w_code w) = true -> w_mtype w = CON -> matching og (w_token w) r = None ->
   dispatch_message s r mcl w = (s, if mcl then [] else [Send r RST EMPTY (w_mid w) [] None]).
 Proof.
-  intros s r mcl w og Hog Hresp Hcon M. dm_head Hcon Hresp.
-  rewrite (process_response_spec s r w og Hog), M. destruct mcl; reflexivity.
+  intros s r mcl w og Hog Hr Hresp Hcon M. rewrite (unmatched_con_rst_general s r mcl w og Hog Hresp Hcon M).
+  destruct mcl; [reflexivity|]. unfold _send_via_transport. rewrite Hr. reflexivity.
 Qed.
 Lemma unmatched_non_silent_lemma : forall s r mcl w og, outgoing s = Some og ->
   is_response (w_code w) = true -> w_mtype w = NON -> matching og (w_token w) r = None ->
@@ -387,25 +432,29 @@ Proof.
   rewrite (process_response_spec s r w og Hog), M. reflexivity.
 Qed.
 (* an unmatched piggy-backed response only has its message-layer effect (the exchange with that mid ends) *)
-Lemma unmatched_ack_lemma : forall s r mcl w og, outgoing s = Some og ->
+Lemma unmatched_ack_lemma : forall s r mcl w og, outgoing s = Some og -> refuses s r = false ->
   is_response (w_code w) = true -> w_mtype w = ACK -> matching og (w_token w) r = None ->
-  dispatch_message s r mcl w = (fst (_remove_exchange s r w), snd (_remove_exchange s r w) ++ []).
+  dispatch_message s r mcl w = fst (_remove_exchange s r w).
 Proof.
-  intros s r mcl w og Hog Hresp Hack M. dm_head Hack Hresp.
-  destruct (_remove_exchange s r w) as [s1 o1] eqn:RE. cbn [fst snd].
+  intros s r mcl w og Hog Hr Hresp Hack M. dm_head Hack Hresp.
+  destruct (_remove_exchange s r w) as [[s1 o1] x1] eqn:RE. cbn [fst snd].
+  destruct x1; [reflexivity|].
   assert (Hog1 : outgoing s1 = Some og).
-  { eapply remove_exchange_ack in RE; [destruct RE as (-> & _); exact Hog|rewrite Hack; discriminate]. }
-  rewrite (process_response_spec s1 r w og Hog1), M. reflexivity.
+  { eapply remove_exchange_ack in RE; [destruct RE as (-> & _); exact Hog|exact Hr|rewrite Hack; discriminate]. }
+  rewrite (process_response_spec s1 r w og Hog1), M. rewrite app_nil_r. reflexivity.
 Qed.
 (* a matched CON response is acknowledged exactly once (and not reset); nothing else is put on the wire *)
-Lemma matched_con_acked_lemma : forall s r mcl w og q, outgoing s = Some og ->
+Lemma matched_con_acked_lemma : forall s r mcl w og q, outgoing s = Some og -> refuses s r = false ->
   is_response (w_code w) = true -> w_mtype w = CON -> matching og (w_token w) r = Some q ->
   exists s' o, dispatch_message s r mcl w = (s', o ++ [Send r ACK EMPTY (w_mid w) [] None]) /\
                Forall (fun x => is_send x = false) o.
 Proof.
-  intros s r mcl w og q Hog Hresp Hcon M. dm_head Hcon Hresp.
+  intros s r mcl w og q Hog Hr Hresp Hcon M. dm_head Hcon Hresp.
   rewrite (process_response_spec s r w og Hog), M.
   destruct (add_response (pr_state s og q r w) q w r (pr_final s q w)) as [s2 o2] eqn:A. cbn [fst snd].
+  assert (Hr2 : refuses s2 r = false).
+  { pose proof (add_event_frame _ _ _ _ _ A) as F. destruct F as (_ & _ & _ & _ & _ & _ & _ & F). unfold refuses in *. rewrite F.
+    unfold pr_state. destruct (pr_final s q w); exact Hr. }
+  unfold _send_initially, _send_via_transport. cbn [w_mtype empty_msg]. cbn [ACK CON Z.eqb Pos.eqb]. rewrite Hr2.
   eexists. exists o2. split; [reflexivity|]. eapply add_event_no_send; eauto.
 Qed.
-
